@@ -53,7 +53,7 @@ func init() {
 			{Name: "network, quote provider, file IO of the CLI", Kind: "stub"},
 		},
 		Plans:  c16Plans,
-		Budget: core.StdBudget(1500, 100*time.Second, 200000, 25*time.Minute),
+		Budget: core.StdBudget(1500, 100*time.Second, 200000, 9*time.Minute),
 		Body:   runC16,
 	})
 }
